@@ -25,10 +25,13 @@ from logging import getLogger
 
 from eos.const.eve import AttrId
 from eos.const.eve import EffectId
+from eos.item import Ship
 from eos.pubsub.message import AttrsValueChanged
 from eos.pubsub.message import AttrsValueChangedMasked
 from eos.pubsub.message import EffectsStarted
 from eos.pubsub.message import EffectsStopped
+from eos.pubsub.message import ItemLoaded
+from eos.pubsub.message import ItemUnloaded
 from eos.pubsub.message import RahIncomingDmgChanged
 from eos.pubsub.subscriber import BaseSubscriber
 from eos.util.repr import make_repr_str
@@ -144,6 +147,13 @@ class ReactiveArmorHardenerSimulator(BaseSubscriber):
                 for item in self.__data:
                     for attr_id in res_attr_ids:
                         item.attrs._override_value_may_change(attr_id)
+                # Calculator announces changes only for attributes which have
+                # calculated value; notifications above have just removed ship
+                # resonances, so calculate them again to stay subscribed
+                ship = self.__fit.ship
+                if ship is not None:
+                    for attr_id in res_attr_ids:
+                        ship.attrs.get(attr_id)
                 self.__running = False
         return reso
 
@@ -481,7 +491,13 @@ class ReactiveArmorHardenerSimulator(BaseSubscriber):
     def _handle_changed_dmg_profile(self, _):
         self.__clear_results()
 
+    def _handle_item_loaded_unloaded(self, msg):
+        if isinstance(msg.item, Ship):
+            self.__clear_results()
+
     _handler_map = {
+        ItemLoaded: _handle_item_loaded_unloaded,
+        ItemUnloaded: _handle_item_loaded_unloaded,
         EffectsStarted: _handle_effects_started,
         EffectsStopped: _handle_effects_stopped,
         AttrsValueChanged: _handle_attr_changed,
